@@ -126,6 +126,7 @@ type G struct {
 	skipped  int
 	isMain   bool
 	wakeStep int64
+	wgCheck  *wgState // set when woken from WaitGroup.Wait: state is re-read on resume
 }
 
 type selWait struct {
@@ -500,6 +501,15 @@ func (s *sched) loop() {
 			rep = g.rep
 			g.hasReply = false
 			g.rep = reply{}
+			if w := g.wgCheck; w != nil {
+				g.wgCheck = nil
+				if w.n != 0 || len(w.waiters) != 0 {
+					s.step++
+					stepNow = s.step
+					s.note(g, opWGWait, "reused", 0)
+					rep.panic = "sync: WaitGroup is reused before previous Wait has returned"
+				}
+			}
 		} else {
 			var blocked bool
 			s.step++
